@@ -14,7 +14,7 @@ import traceback
 from collections import Counter
 
 from vf import env
-from vf.core import CaseTimeout, Ctx, Known, Skip, Violation, digest, jdump, known_ids, watchdog
+from vf.core import CaseTimeout, Ctx, Known, Skip, Violation, ambient, digest, jdump, known_ids, watchdog
 
 MAX_FAIL = 3
 
@@ -39,7 +39,12 @@ class Acc:
         try:
             try:
                 with watchdog(sub.case_timeout):
-                    r = sub.check(case, self.ctx)
+                    if getattr(sub, "ambient", False):
+                        # result must not depend on calendar.setfirstweekday() / week_starts_at(): switched per case (core.ambient)
+                        with ambient(case):
+                            r = sub.check(case, self.ctx)
+                    else:
+                        r = sub.check(case, self.ctx)
             except CaseTimeout:
                 raise Violation(f"non-termination: case still running after {sub.case_timeout}s", kind="timeout")
             except (Violation, Known, Skip, env.HarnessError):
